@@ -33,6 +33,19 @@ SPEC = {
          'fakes': True, 'extra_libs': ['vmutate'], 'sinks': {'C13_reader_commit': 'sweep_judge'}, 'n': {'quick': 2, 'thorough': 12}},
         {'pkg': 'execute', 'src': ['harness/execute/c11_test.go', 'harness/execute/c13_test.go', 'harness/execute/c13r_test.go'], 'test': 'TestVerif_C13_exec_reader',
          'fakes': True, 'extra_libs': ['vmutate'], 'sinks': {'C13_reader_exec': 'sweep_judge'}, 'n': {'quick': 2, 'thorough': 12}},
+        # directed (guard, use) site classes of Model/PanicSites2.v, one part per package that owns the functions
+        {'pkg': 'commit', 'src': 'harness/commit/c13s_test.go', 'test': 'TestVerif_C13_sites_commit', 'fakes': True, 'extra_libs': ['vmutate'],
+         'sinks': {'C13_sites_commit': 'site_judge'}, 'n': {'quick': 1, 'thorough': 1}},
+        {'pkg': 'commit/merkleroot', 'pkgname': 'merkleroot', 'src': 'harness/commit/merkleroot/c13s_test.go', 'test': 'TestVerif_C13_sites_merkleroot',
+         'fakes': True, 'extra_libs': ['vmutate'], 'sinks': {'C13_sites_merkleroot': 'site_judge'}, 'n': {'quick': 1, 'thorough': 1}},
+        {'pkg': 'commit/merkleroot/rmn', 'pkgname': 'rmn', 'src': 'harness/commit/merkleroot/rmn/c13s_test.go', 'test': 'TestVerif_C13_sites_rmn',
+         'extra_libs': ['vmutate'], 'sinks': {'C13_sites_rmn': 'site_judge'}, 'n': {'quick': 1, 'thorough': 1}},
+        {'pkg': 'execute', 'src': 'harness/execute/c13s_test.go', 'test': 'TestVerif_C13_sites_exec', 'fakes': True, 'extra_libs': ['vmutate'],
+         'sinks': {'C13_sites_exec': 'site_judge'}, 'n': {'quick': 1, 'thorough': 1}},
+        {'pkg': 'execute/report', 'pkgname': 'report', 'src': 'harness/execute/report/c13s_test.go', 'test': 'TestVerif_C13_sites_report',
+         'extra_libs': ['vmutate'], 'sinks': {'C13_sites_report': 'site_judge'}, 'n': {'quick': 1, 'thorough': 1}},
+        {'pkg': 'pkg/reader', 'pkgname': 'reader', 'src': 'harness/pkg/reader/c13s_test.go', 'test': 'TestVerif_C13_sites_reader',
+         'extra_libs': ['vmutate'], 'sinks': {'C13_sites_reader': 'site_judge'}, 'n': {'quick': 1, 'thorough': 1}},
     ],
     'rule': 'exhaustive single-site mutation sweep: honest traffic of both plugins (commit: 4 scenarios select / build / build with a leader-supplied RMN bundle '
             'while RMN is disabled / wait; execute: the three phases; N=4 oracles; each scenario under three discovery configurations: no discovery processor, discovery enabled with '
@@ -45,19 +58,46 @@ SPEC = {
             'handling is swept by the C06 harness (sink C06_sweep, judged here too): every single anomaly and every PAIR of anomalies out of 38 observation-response and 14 signature-response anomalies '
             '(extra / duplicate / missing lanes, root lengths 0/5/31/33, nil sub-messages, wrong ids and senders, wrong interval / on-ramp / digest, bad signatures, garbage bodies) applied to one response of an honest run; outcome kinds panic and watchdog are violations. Borrowed parts: the function-level harnesses of C17 (truncateObservation / truncateLastCommit / truncateChain), C09 (computeRanges, '
             'filterOutExecutedMessages, getPendingExecutedReports) and C08 (report builder Add, selectReport) are run again here and judged ONLY for the termination kind they recorded (recovered panic / watchdog = violation; '
-            'judges p_* in Check/C13_check.v). non-trivial: every case; distinct by digest',
+            'judges p_* in Check/C13_check.v). '
+            'C13_sites_*: directed classes, one per (guard, use) pair of Model/PanicSites2.v, run in the package that owns the functions (commit, commit/merkleroot, '
+            'commit/merkleroot/rmn, execute, execute/report, pkg/reader): the REAL function pair is called with inputs around the guard boundary — lengths n-2..n+2 of the two '
+            'lists of every zip site (reader answers vs. things asked about, token data vs. messages, token data of two observers), index idx in {0, 1, len-1, len, len+1} '
+            'against both lengths of checkMessage, nil / empty / 31 / 32 / 33 / 64-byte fields of every entry of the query\'s RMN bundle behind a good entry, all 16 '
+            'combinations of (BuildingReport, retry, bundle present, remote config empty) of verifyQuery, Deviates on {0, +-1, 2, +-1000, 1e18}^2, Append at len-1 / len / '
+            'len+1 / len+7, KeepNRightBytes with n in {0, 1, 19, 20, 21, 32, 33, MaxUint}, USDC payloads of 0 / 31 / 32 / 59 / 63 / 64 / 65 bytes, fee components and '
+            'prices present / nil, packed fee updates nil / 0 / 1 / negative / 2^200 with and without timestamp, price feed answers nil x decimals {0, 6, 17, 18, 19, 36, 255}, '
+            'a chain writer answering (nil, nil), and the executed-range loop of filterOutExecutedMessages on reports [hi-w, hi], w in {0, 1, 3}, hi in {20, 2^64-2, 2^64-1}, '
+            'with executed ranges around both ends (watchdog 150 ms; the part stops at the first hang because the loop also allocates without bound). '
+            'A case is (abstract site input, 0 returned / 1 returned an error / 2 panicked / 3 did not return); Coq evaluates the site\'s model on the same input and '
+            'compares the code exactly (a guard that became weaker or stricter is a mismatch), the executable property is "never 2 or 3". '
+            'non-trivial: every case; distinct by digest',
     'trusted': ['encoding/json, protobuf, math/big, hex.DecodeString, big.Int.SetString never panic on any input (library oracles)',
                 'logging calls with %v of arbitrary values do not panic',
                 'contract-reader results are those of the real ccipChainReader guards (nil big integers are turned into errors there) — the fakes answer within that contract'],
-    'assumptions': ['absence of panics is PROVED only for the modelled dereference / index / loop sites; the sweep validates that the modelled set is complete for single-site '
-                    'mutations of the swept traffic, it is a test, not a proof',
-                    'hangs are modelled as loops whose trip count is not bounded by the input size and missing context checks, not as scheduler behaviour'],
-    'modelled': 'custom JSON unmarshalers with explicit slice bounds, execute state decoding + PluginState.Next, getMessagesOutcome range loop, Median / aggregators over nil big '
-                'integers with the validation that guards them, RMN controller response handling (C06 model), observation truncation (C17 model)',
-    'level_text': 'PARTIAL. Proof: 14 Coq theorems over res-monad (Ok / Err / Panic / Spin) models of the panic and spin sites — unmarshalers never panic for any byte string; any '
-                  'previous-outcome state string is rejected or advanced; the repaired message loop is total and refines the original; validated aggregates never dereference nil; '
-                  'the RMN controller never panics and returns by the deadline for every event list; truncation is total — with witness theorems for the pre-repair code '
-                  '(F09, F10, F12a, F19a, F19b, F20). Correspondence: the exhaustive single-site mutation sweep (about 30 000 cases) must find no panic and no hang.',
+    'assumptions': ['absence of panics is PROVED only for the modelled dereference / index / loop sites (docs/c13_sites.md lists every site found by the analyser '
+                    'with its status); the sweeps validate that the modelled set is complete for single-site mutations of the swept traffic, they are tests, not proofs',
+                    'hangs are modelled as loops whose trip count is not bounded by the input size and missing context checks, not as scheduler behaviour',
+                    'the (guard, use) models abstract payloads to their lengths / nil-ness; what the guarded code computes with the values is other properties\' business'],
+    'modelled': 'PanicSites.v: custom JSON unmarshalers with explicit slice bounds, execute state decoding + PluginState.Next, getMessagesOutcome range loop, Median / '
+                'aggregators over nil big integers with the validation that guards them; Rmn.v (C06): RMN controller response handling; Truncate.v (C17): observation '
+                'truncation; PanicSites2.v: 26 (guard, use) pairs — the seven "length check before zip loop" sites (ValidateMerkleRootsState, ObserveOffRampNextSeqNums, '
+                'ObserveFeedTokenPrices, getAllOffRampSourceChainsConfig, buildSingleChainReportHelper, tokendata.merge, GetFeeQuoterTokenUpdates), checkMessage and the '
+                'builder loop, NewECDSASigFromPB, NewLaneUpdatesFromPB, verifyQuery / buildReport on the query bundle, Deviates (and on medians of validated values), '
+                'MessageTokenData.Append, the nested map writes of mergeTokenObservations, validateRootLengths + Bytes32(root), values[len-1] of '
+                'gotSufficientObservationResponses, KeepNRightBytes, unpackID, NewSourceTokenDataPayloadFromBytes, MessageExecCostUSD18, GetChainFeePriceUpdate + '
+                'FromPackedFee, MessageFeeUSD18 (F70), the executed-range loop of filterOutExecutedMessages (F71), getRawTokenPriceE18Normalized (F73), '
+                'GetChainsFeeComponents (F74)',
+    'level_text': 'PARTIAL. Proof: 69 Coq theorems over res-monad (Ok / Err / Panic / Spin) models of the panic and spin sites. First batch (14): unmarshalers never panic for any '
+                  'byte string; any previous-outcome state string is rejected or advanced; the repaired message loop is total and refines the original; validated aggregates '
+                  'never dereference nil; the RMN controller never panics and returns by the deadline for every event list; truncation is total. Second batch (55, '
+                  'PanicSites2): for each of 26 (guard, use) pairs "the function as it stands never panics / spins for ALL inputs" plus a witness that the bare use panics '
+                  'without its guard (and an exact characterisation for the zip loops: panics iff the indexed list is shorter); for the five sites that had NO guard '
+                  '(F70 nil FeeValueJuels, F71 uint64 loop ending at 2^64-1, F72 fee quoter answer shorter than the token list, F73 price feed answer without a value, '
+                  'F74 chain writer answering (nil, nil)) the repaired function is proved total and equal to the original on every input on which that one returned, with '
+                  '_unfixed_refuted witnesses replayed on the real code. PROVED sites: see "modelled". SWEPT ONLY (docs/c13_sites.md, 291 of 788 analyser rows): sort '
+                  'comparators, map writes into maps made in the same function, make sizes, receiver field accesses, the token-data HTTP client, discovery aggregation, '
+                  'nonce / costly-message / commit-report merges, reader event decoding (type assertions with ok). Correspondence: the exhaustive single-site mutation '
+                  'sweep (about 100 000 cases) must find no panic and no hang; the directed site classes (905 cases) must agree with the models code for code.',
     'level_note': 'Partial by nature: a theorem excludes panics only at modelled sites; code the model abstracts (logging, third-party libraries, goroutine scheduling) is covered '
                   'by the sweep only. Trusted: Coq kernel, models, library oracles. No axioms.',
 }
